@@ -20,6 +20,10 @@ ASSUMPTIONS = [
     'generators are executed eagerly (yield appends to a ghost output list); laziness is not modelled - every consumer in the repository exhausts the generator at once and nothing is written in between',
     'spec functions introduced by their unfolding axioms (definitions, conservative on well-founded arguments): dfs / dfs_upto guarded by the forest flag (closure.DFS_AX), take (prefix of a list), every_filter_holds, every_line_has_visible_width',
     'allocation: the part of the heap that is not allocated yet is modelled as blank task objects that satisfy the invariant trivially and that nobody refers to (Task.__init__ unit); a fresh list object differs from every list object a task holds',
+    'defined predicates (graph_theory.INJ_AX, UNIQ_AX, CLOSED_AX): inj / disj (different tasks hold different list objects), uniq (ids unique within every tree) and closedL (a set of tasks closed under children) are introduced by the two directions of their definitions, '
+    'the <= direction skolemised, the => direction through a witness function (left inverse / side marker / task-with-id) that exists exactly when the predicate holds - a conservative extension; every instance over small universes is checked in selftest/validate_axioms.py; closedL\'s '
+    'consequence CL1 (descendants of members are members) is proved in Lean',
+    'guarded hypotheses (Unit.focus): a unit may state a group of hypotheses as `switch -> clause` and run the queries that do not need them with the switch false; this only removes hypotheses from a query (sound), the switch occurs nowhere else',
     'the solver budget is z3\'s deterministic resource limit; cvc5 (only consulted for z3\'s unknowns) runs under a wall-clock limit',
 ]
 
@@ -53,7 +57,8 @@ _SCHED_TRUST = ['interface contract (L): IResource.get_available_units is a pure
                 'structure facts assumed at the entry of the passes (established by calc and by the graph invariants, not re-proved here): links and children non-null, '
                 'rank decreasing along every waits-for edge (exists iff _check_loops accepts; K1), ids unique in the WBS (C05), Task.all_parents lists parent first then its ancestors, summary fields cleared by __prepare_tasks']
 _SCHED_B = ['WBS.clone (used by calc by assumed contract: a fresh WBS; with the passed validations and the graph invariants it yields the structure facts of the passes, for the closed world of the copy\'s tasks) - bounded stand-in (C10)',
-            '_check_loops, _check_loops_from_task (cycle detection incl. cycles through the hierarchy) - bounded stand-in only',
+            '_check_loops, _check_loops_from_task: that a normal return means "the waits-for graph (own links, links of ancestors, children) has no cycle", and termination of the walk - bounded stand-in only '
+            '(proved: the walk only reads the graph and ends normally or with RuntimeError, contracts/loops.py)',
             'ResourceUsageReport.rows(filter) - bounded stand-in only']
 _SCHED_EXPL = ('contract-based deductive verification of the functions the property lives in: the four scheduling kernels (fill loops and availability searches of both schedulers), '
                '_ResourceUsage.reserve/reserved and ResourceUsageReport.reserved (sum-comprehensions proved equal to the ledger specification functions by induction), and the two recursive passes '
@@ -82,12 +87,13 @@ PROPS.update({
              'kernels: latest day with free capacity, skipped days full, end/start encodings from the end of the day, days between first and last work day full.', _SCHED_B, _SCHED_TRUST, design_ref='8/C09'),
     'C14': P('other', _SCHED_EXPL + 'C14 clauses proved: every safety obligation of the kernels and passes (no None arithmetic/attribute, no division by zero, no max/min of an empty list, no negative estimate, no undeclared exception class), '
              'termination measures of all four bounded searches and of the recursion (rank). That calc answers RuntimeError for unschedulable inputs (cycle through the hierarchy, outside predecessor without dates, fixed end in the future) '
-             'is proved for two of the diagnoses (_validate_graph_isolation: outside predecessor without dates; __check_no_end_dates_in_future: fixed end in the future - each raises exactly in that case); the cycle through the hierarchy and the composition in calc are decided by the bounded stand-in only.', _SCHED_B, _SCHED_TRUST + ['A-stack'], design_ref='8/C14'),
+             'is proved for two of the diagnoses (_validate_graph_isolation: outside predecessor without dates; __check_no_end_dates_in_future: fixed end in the future - each raises exactly in that case); the cycle pre-check (_check_loops / _check_loops_from_task, two id sets shared by reference through the recursion) is proved to read the graph only and to end normally or with RuntimeError - '
+             'never KeyError out of visited.remove, never an attribute of None: on every normal return of the recursive walk the visited set is exactly what it was; that it DETECTS the cycle through the hierarchy is decided by the bounded stand-in only.', _SCHED_B, _SCHED_TRUST + ['A-stack'], design_ref='8/C14'),
 })
 _GRAPH_TRUST = ['assumed contract of the built-in list (append/remove/in/index/clear; abstract list theory T1, validated against CPython lists in the thorough tier)',
                 'graph lemma axioms D1-D5, G1 (transcriptions of lemmas/Graph.lean, proved in Lean 4 + Mathlib; transcription trusted, validated on all relations over <= 4 nodes)',
                 'history induction (meta-argument): every public mutator preserves Inv on both exits, constructors establish it; closed by the encapsulation scan']
-_GRAPH_B = ['WBS.__init__ with initial tasks, Task.__init__ with dependency arguments, operators with a single task or a non-list iterable as right operand - bounded stand-in only (random histories of public calls)',
+_GRAPH_B = ['WBS.__init__ with initial tasks, operators with a single task or a non-list iterable as right operand - bounded stand-in only (random histories of public calls)',
             'Task.__init__ does not carry the id clause U1 (a refusal out of the attach loop of the children setter is excluded only for heaps with unique ids) - constructor with children: C15 / C05 by the bounded stand-in',
             'assumed by contract: _to_list (type dispatch of the setters\' argument), the correspondence between the opaque id-clash predicate used in the mutator units and the proved post-condition of _has_id_intersection (same sentence, two formulations), '
             'the read-only list view _ImmutableTaskList (delegates in / iteration / len to the wrapped list). The closure helpers are no longer assumed: Task.all_children / __get_all_children / its generator, '
@@ -104,7 +110,7 @@ _GRAPH_EXPL = ('contract-based deductive verification of the core mutators: Task
                'and WBS.remove, and the operators t // others, t << others, t >> others (right operand a list of tasks) are proved against these contracts. The list facades are proved against those contracts (callers see only the callee contract): _ChildrenList.append / insert / move / sort / reorder and _PredecessorsList / _SuccessorsList append / remove, '
                'as are the ownership walks Task._attach / _detach, the list-object setter __set_children and the closure helpers the mutators call (recursive generators executed with a ghost output list; '
                'all_children is proved to return exactly the depth-first listing dfs(t) = concat over the children c in list order of [c] + dfs(c), every strict descendant once - which is WBS.tasks (C05); '
-               'termination by measures whose existence in finite acyclic graphs is Lean lemma K1). Task.__init__ (without dependency arguments) is proved to establish Inv for the new object - the unallocated part of the heap is modelled as blank objects nobody refers to - and to hand parent / children to the setters. WBS.__init__ (without initial tasks) is proved to create a hidden root with the reserved id that the new WBS owns (the constructor call on the reserved id is used by assumed contract). Level `other`: what is listed below is covered by the bounded native '
+               'termination by measures whose existence in finite acyclic graphs is Lean lemma K1). Task.__init__ (all graph arguments: parent, children, predecessors, successors - two ghost relations, one per side, each the transpose of the other; Lean lemma transpose_acyclic) is proved to establish Inv for the new object - the unallocated part of the heap is modelled as blank objects nobody refers to - and to hand parent / children to the setters. WBS.__init__ (without initial tasks) is proved to create a hidden root with the reserved id that the new WBS owns (the constructor call on the reserved id is used by assumed contract). Level `other`: what is listed below is covered by the bounded native '
                'stand-in (random histories over task objects sharing ids, two WBSs, stale list facades, constructors). ')
 PROPS.update({
     'C01': P('other', _GRAPH_EXPL, _GRAPH_B, _GRAPH_TRUST, design_ref='8/C01'),
@@ -140,10 +146,11 @@ PROPS.update({
     'C13': P('other', 'contract-based deductive verification of the field-level inverse pairs: the five cell parsers of csv_io.py are proved against their specification, and for every default column the cell '
              'expression of write_csv (taken from the real AST) rendered by the csv writer and read back by the parser specification is proved equivalent to the field (None ~ empty text); the TaskRaw fields built by '
              'tasks_to_raws are proved to be the task values, parent_id = id of the reported parent for all ids (0 and negative included). raws_to_wbs is proved to rebuild the HIERARCHY from the rows: one task per row with the row\'s id, every task below the task of its parent row (a root task of the new WBS '
-             'if the row names no parent, or a parent id that no row has), root tasks and siblings in row order - four loops over the proved contracts of Task.__init__, the parent setter, WBS.__init__ and the lookup by id '
-             '(domain: rows with pairwise different ids and without dependencies; a RuntimeError out of a mutator is allowed). '
-             'Level `other`: predecessor_ids join/split and the rebuild of the dependency links, custom columns, the reader / writer loops, the fix-point and BOM clauses are covered by the bounded stand-in only.',
-             ['__parse_predecessors', '__parse_header', 'read_csv / write_csv loops', 'raws_to_wbs for rows with dependencies (links)', 'custom attribute columns'],
+             'if the row names no parent, or a parent id that no row has), root tasks and siblings in row order, and (unit raws_to_wbs[dependencies]) the DEPENDENCIES: the predecessors of every row\'s task are exactly the tasks of the ids the row lists, the link invariant (symmetric, acyclic, duplicate free) '
+             'holds for the result - six loops over the proved contracts of Task.__init__, the parent setter, WBS.__init__, the lookup by id and _PredecessorsList.append / the predecessors setter '
+             '(domain: rows with pairwise different ids; a RuntimeError out of a mutator - unknown id, cyclic parents or dependencies - is allowed). '
+             'Level `other`: predecessor_ids join/split, custom columns, the reader / writer loops, the fix-point and BOM clauses are covered by the bounded stand-in only.',
+             ['__parse_predecessors', '__parse_header', 'read_csv / write_csv loops', 'custom attribute columns'],
              ['library contracts (L): csv.reader(csv.writer(rows)) = rows; csv renders None as empty, others by str(); float(str(x)) = x; int(str(i)) = i; strptime(strftime(d)) = d for day-precision dates 1969-2068 (enumerated completely in the thorough tier)'],
              ['min_start is not read back (known finding A-27)'], design_ref='8/C13'),
     'C12': P('other', 'contract-based deductive verification of the two memoised recursions of CriticalPathCalculator: __forward / __backward are proved (recursion by contract, termination by rank, loop invariants) to '
